@@ -160,17 +160,58 @@ func (g *VGroup) proposeConf(id uint64, ctx, kind int) bool {
 		typ = pb.ConfChangeRemoveNode
 	}
 	cc := &pb.ConfChangeV2{Context: []byte(fmt.Sprintf("c%d", ctx)), Changes: []*pb.ConfChangeSingle{{Type: typ.Enum(), NodeId: new(phantom)}}}
+	// A change is legal only on top of the configuration it was made for: the
+	// leader proposes one when its log holds no configuration change that is
+	// not committed yet (so the configuration at the end of its log is the
+	// committed one), a simple change only outside a joint configuration.
+	for i := g.commitMax() + 1; i <= p.last(); i++ {
+		if e := p.entry(i); e != nil && e.GetType() != pb.EntryNormal {
+			return false
+		}
+	}
+	if kind < 4 && g.ref.Joint() {
+		return false
+	}
+	if kind >= 4 {
+		// joint changes: the voters stay the same, so both majorities coincide
+		// and the model's voting and commit rules are unaffected
+		switch kind {
+		case 4, 5:
+			if g.ref.Joint() {
+				return false
+			}
+			tr := pb.ConfChangeTransitionJointExplicit
+			if kind == 5 {
+				tr = pb.ConfChangeTransitionJointImplicit
+			}
+			cc.Transition = tr.Enum()
+		default:
+			if !g.ref.Joint() {
+				return false
+			}
+			cc.Changes = nil
+			if g.ref.Auto {
+				// what a raft leader proposes by itself: no payload at all
+				cc.Context = nil
+			}
+		}
+	}
 	et, data, err := pb.MarshalConfChange(cc)
 	if err != nil {
 		g.c.chk.toolError("vgroup: marshal conf change: " + err.Error())
 		return false
 	}
+	if len(data) == 0 {
+		data = nil // as it arrives after a trip over the wire
+	}
 	p.log = append(p.log, &pb.Entry{Term: new(p.term), Index: new(p.last() + 1), Type: et.Enum(), Data: data})
 	g.registerCreated(p)
-	k := g.c.chk
-	key := fmt.Sprintf("c%d", ctx)
-	k.ccProposed[key] = data
-	k.ccType[key] = et
+	if data != nil {
+		k := g.c.chk
+		key := fmt.Sprintf("c%d", ctx)
+		k.ccProposed[key] = data
+		k.ccType[key] = et
+	}
 	return true
 }
 
